@@ -248,13 +248,20 @@ def run_jobs(jobs, workers=None):
 # --------------------------------------------------------------------------- trace extraction
 
 def trace_inputs(job):
-    """re-run a failed job with --trace and collect the values of harness inputs (globals named in_*)"""
+    """re-run a failed job with --trace; returns ({cbmc property id: {input name: value}}, output).
+       CBMC prints one trace per failed property; the inputs (globals named in_*) are read per trace."""
     r = run_job(job, trace=True)
-    vals = {}
-    for m in re.finditer(r'^\s*(in_[A-Za-z0-9_\[\]\.]+)=([^\s]+)', r.output, re.M):
-        name, v = m.group(1), m.group(2)
-        vals[name] = v      # last assignment wins (harness assigns each input once)
-    return vals, r.output
+    per = {}
+    cur = None
+    for line in r.output.splitlines():
+        m = re.match(r'^Trace for ([^:]+):', line)
+        if m:
+            cur = per.setdefault(m.group(1), {}); continue
+        if cur is None: continue
+        m = re.match(r'^\s*(in_[A-Za-z0-9_\[\]\.]+)=([^\s]+)', line)
+        if m:
+            cur[m.group(1)] = m.group(2)      # last assignment wins (the harness assigns each input once)
+    return per, r.output
 
 
 # --------------------------------------------------------------------------- known findings
@@ -441,7 +448,7 @@ def triage(rep, results, info=None, replayer=None):
                 try:
                     traces[futs[f].name] = f.result()
                 except Exception as e:
-                    traces[futs[f].name] = ({'trace_error': str(e)}, '')
+                    traces[futs[f].name] = ({}, 'trace error: %s' % e)
     for r in results:
         if r.status != 'failed': continue
         seen = set()
@@ -457,7 +464,8 @@ def triage(rep, results, info=None, replayer=None):
                 rep.obligations = [o for o in rep.obligations if not (o['job'] == r.job.name and o['label'] == lab)]
                 rep.known_excluded += 1
                 continue
-            vals, out = traces.get(r.job.name, ({}, r.output))
+            per, out = traces.get(r.job.name, ({}, r.output))
+            vals = per.get(pid, {}) if isinstance(per, dict) else {}
             tail = '\n'.join([l for l in out.splitlines() if 'FAILURE' in l][:40])
             data = dict(property=prop, obligation=lab, cbmc_property=pid, description=desc, job=r.job.name,
                         pipeline=r.cmds, counterexample_inputs=vals, verifier_output_failed_lines=tail,
